@@ -1277,7 +1277,18 @@ impl<'a, 'b> Gen<'a, 'b> {
     }
 
     fn gen_assign(&mut self, ty: &Ty, scope: &Scope, depth: usize) -> Expr {
-        let hint = self.c.weighted(&[6, 2, 2]) as u8;
+        let mut hint = self.c.weighted(&[6, 2, 2]) as u8;
+        // assign-inline copies a binding's expression to every use: nested inside other binding
+        // forms (or with binding forms inside it) the emitted code grows exponentially and a
+        // compile takes minutes.  That growth is what "inline" means, not a defect, so the
+        // generator keeps assign-inline at the outermost binding level and flat inside.
+        if hint == 1 && self.let_depth > 1 {
+            hint = 0;
+        }
+        let saved_let_depth = self.let_depth;
+        if hint == 1 {
+            self.let_depth = self.let_limit.max(self.let_depth);
+        }
         self.feat(match hint {
             0 => "assign",
             1 => "assign-inline",
@@ -1293,6 +1304,32 @@ impl<'a, 'b> Gen<'a, 'b> {
                 let tb = self.gen_leaf_ty();
                 let p = Pat::Cons(Box::new(Pat::Name(self.fresh("V"), ta.clone())), Box::new(Pat::Name(self.fresh("V"), tb.clone())));
                 (p, Ty::Pair(Box::new(ta), Box::new(tb)))
+            } else if !self.cfg.classic_subset && self.c.chance(40) {
+                // list-shaped patterns of 2..4 elements, an element may itself be a 2-list,
+                // proper or dotted: (a (b c) d), (a b . c), ...
+                self.feat("assign-destructuring");
+                self.feat("assign-list-pattern");
+                let k = self.c.range(2, 4);
+                let mut items = vec![];
+                for _ in 0..k {
+                    if self.c.chance(60) {
+                        let t1 = self.gen_leaf_ty();
+                        let t2 = self.gen_leaf_ty();
+                        items.push(list_pat(vec![Pat::Name(self.fresh("V"), t1), Pat::Name(self.fresh("V"), t2)], Pat::Nil));
+                    } else {
+                        let t1 = self.gen_leaf_ty();
+                        items.push(Pat::Name(self.fresh("V"), t1));
+                    }
+                }
+                let tail = if self.c.chance(70) {
+                    let t1 = self.gen_leaf_ty();
+                    Pat::Name(self.fresh("V"), t1)
+                } else {
+                    Pat::Nil
+                };
+                let p = list_pat(items, tail);
+                let t = pat_ty(&p);
+                (p, t)
             } else {
                 let t = self.gen_leaf_ty();
                 (Pat::Name(self.fresh("V"), t.clone()), t)
@@ -1304,6 +1341,7 @@ impl<'a, 'b> Gen<'a, 'b> {
         let body = self.gen_expr(ty, &inner, depth - 1);
         let bound: Vec<(String, Ty)> = inner[scope.len()..].to_vec();
         let body = self.mix_in_binding(ty, &bound, body);
+        self.let_depth = saved_let_depth;
         // permute the source order (dependencies may point forward)
         let mut idx: Vec<usize> = (0..binds.len()).collect();
         for i in (1..idx.len()).rev() {
